@@ -279,13 +279,16 @@ uint64_t g_clk[RG_MAX];
 /* every live entry after position p has clock >= target */
 #define LATER_GE(r, p, k) (!(LIVE(r, k) && DIST(r, k) > DIST(r, p)) || g_clk[(k)] >= clock)
 long w_fd_head, w_fd_tail; uint64_t w_fd_clock;
+long w_fd_n; uint64_t w_fd_c0, w_fd_c1, w_fd_c2, w_fd_c3, w_fd_c4;   /* replay: ring size and the clocks of the live entries */
+#define WCLK(r, k, w) (!LIVE(r, k) || (w) == g_clk[(k)])
 WITNESS(find_destination);
 ssize_t c_find_destination(struct ring *r, uint64_t clock)
 __CPROVER_requires(__CPROVER_is_fresh(r, sizeof(struct ring)) && r->size == RG_N && __CPROVER_is_fresh(r->ev, RG_N * sizeof(struct ovni_ev *)))
 __CPROVER_requires(RING_INV(r))
 __CPROVER_requires(ENTRY(r, 0) && ENTRY(r, 1) && ENTRY(r, 2) && ENTRY(r, 3) && ENTRY(r, 4))
 __CPROVER_requires(g_said == 0 && DIAG_PRE)
-__CPROVER_requires(WBIND(find_destination, w_fd_head == r->head && w_fd_tail == r->tail && w_fd_clock == clock))
+__CPROVER_requires(WBIND(find_destination, w_fd_head == r->head && w_fd_tail == r->tail && w_fd_clock == clock && w_fd_n == RG_N &&
+	WCLK(r, 0, w_fd_c0) && WCLK(r, 1, w_fd_c1) && WCLK(r, 2, w_fd_c2) && WCLK(r, 3, w_fd_c3) && WCLK(r, 4, w_fd_c4)))
 __CPROVER_assigns(g_said, DIAG_FRAME, g_died)
 __CPROVER_ensures(-1 <= RV && RV < RG_N)
 /* found: the most recent entry strictly earlier than the target */
